@@ -189,6 +189,16 @@ class Exporter:
             sv = [callee.string_value() if callee is not None and hasattr(callee, "string_value") else str(callee)]
         elif kind == "asm":
             sv, iv = tokenize_asm(op)
+        elif kind == "kernel":
+            sv = [name]
+            if name == "kernel.rescale":
+                g = lambda k: op.attributes.get(k) if k in op.attributes else op.properties.get(k)
+                def ival(a):
+                    if hasattr(a, "value"):
+                        d = a.value.data
+                        return int(d) if not isinstance(d, bool) else int(d)
+                    return int(a.get_values()[0])
+                iv = [ival(g("input_zp")), ival(g("output_zp")), ival(g("multiplier")), ival(g("shift")), ival(g("min_int")), ival(g("max_int"))]
         elif kind == "alloc":
             shp = list(op.results[0].type.get_shape())
             iv = [(-1 if d < 0 else d) for d in shp]
@@ -274,6 +284,24 @@ class Exporter:
             "name": name, "nv": max(len(self.ids), 1), "ops": self.ops, "args": args,
             "ty": self.ty or ["o"], "w": self.w or [0],
         }
+
+
+def export_body(block, width_map=None) -> dict:
+    """Exports a single block (e.g. a linalg.generic body) as a function image: block args are the arguments,
+    constants defined outside the block and used inside are re-materialised first (syntactic closure)."""
+    e = Exporter(width_map)
+    args = [e.vid(a) for a in block.args]
+    inside = {r for op in block.walk() for r in op.results}
+    done = set()
+    for op in block.walk():
+        for o in op.operands:
+            if o not in inside and o not in block.args and o not in done:
+                owner = o.owner
+                if isinstance(owner, Operation) and owner.name == "arith.constant":
+                    e.ops.append(e.rec(owner))
+                    done.add(o)
+    e.walk_block(block, 0)
+    return {"name": "body", "nv": max(len(e.ids), 1), "ops": e.ops, "args": args, "ty": e.ty or ["o"], "w": e.w or [0]}
 
 
 def export_func(fn, width_map=None) -> dict:
